@@ -430,3 +430,128 @@ def measure_anchor_coverage(fn, ranges):
                      "missing_lines": missing[:40]}
     except Exception as ex:
         return res, {"available": False, "error": repr(ex)}
+
+
+# ------------------------------------------------------------------ translated-source obligations
+GEN_MARKER = ("From V Require Import rd.RdGenBase gen.RdMethodsGen rd.RdGenThm rd.RdAddGenBase gen.RdAddGen "
+              "rd.RdAddGenThm.")
+
+
+def _load(modname):
+    import importlib.util
+    spec = importlib.util.spec_from_file_location(modname, os.path.join(C.VERIF, "harness", modname + ".py"))
+    m = importlib.util.module_from_spec(spec)
+    spec.loader.exec_module(m)
+    return m
+
+
+def private_gen_check(cid):
+    """Re-check the <cid>_gen_* obligations against the translation of THIS run's source (VERIF_REPO) in a
+    private directory (logical path P): coq/gen/ is shared with every concurrently running check, each of
+    which regenerates it from its own source tree, so the shared build may belong to another tree by the
+    time props/<cid>.v is compiled.  The result is cached under build/rd_gen_cache/<hash> where the hash
+    covers the two generated files, every hand-written source they and the proofs depend on and the
+    obligations themselves -- an unchanged tree is compiled once, a changed one is always recompiled.
+    -> dict(names, discharged, ok, errors [translator aborts], log)"""
+    import hashlib
+    import re
+    import shutil
+    terrs = []
+    try:
+        G1 = _load("gen_rd_methods")
+        t1, e1 = G1.translate(open(os.path.join(C.SRC, "dateutil", "relativedelta.py")).read(),
+                              open(os.path.join(C.SRC, "dateutil", "_common.py")).read())
+        terrs += ["gen_rd_methods %s: %s" % e for e in e1]
+    except Exception as ex:
+        t1 = "(* TRANSLATE-ERROR source: %s *)\n" % str(ex).replace("*)", "* )").replace("(*", "( *")
+        terrs.append("gen_rd_methods source: %s" % ex)
+    try:
+        G2 = _load("gen_rd_add")
+        t2, e2 = G2.translate(open(os.path.join(C.SRC, "dateutil", "relativedelta.py")).read())
+        terrs += ["gen_rd_add %s: %s" % e for e in e2]
+    except Exception as ex:
+        t2 = "(* TRANSLATE-ERROR source: %s *)\n" % str(ex).replace("*)", "* )").replace("(*", "( *")
+        terrs.append("gen_rd_add source: %s" % ex)
+    props = open(os.path.join(C.COQ, "props", cid + ".v")).read()
+    if GEN_MARKER not in props:
+        return {"names": [], "discharged": 0, "ok": False, "errors": terrs, "log": "marker line missing in props/%s.v" % cid}
+    head = re.sub(r"\(\*.*?\*\)", "", props[:props.index("Theorem %s_" % cid)], flags=re.S)
+    tail = props[props.index(GEN_MARKER) + len(GEN_MARKER):]
+    names = re.findall(r"^\s*Theorem\s+([A-Za-z0-9_']+)", re.sub(r"\(\*.*?\*\)", "", tail, flags=re.S), flags=re.M)
+    thm1 = open(os.path.join(C.COQ, "rd", "RdGenThm.v")).read()
+    thm2 = open(os.path.join(C.COQ, "rd", "RdAddGenThm.v")).read()
+    if " gen.RdMethodsGen" not in thm1 or "gen.RdMethodsGen rd.RdGenThm rd.RdAddGenBase gen.RdAddGen." not in thm2 \
+            or " gen.RdMethodsGen" not in t2 and "TRANSLATE-ERROR source" not in t2:
+        return {"names": names, "discharged": 0, "ok": False, "errors": terrs,
+                "log": "unexpected import lines in RdGenThm.v / RdAddGenThm.v / RdAddGen.v"}
+    files = [
+        ("RdMethodsGen.v", t1),
+        ("RdGenThm.v", thm1.replace(" gen.RdMethodsGen", "", 1).replace(
+            "Import ListNotations.", "From P Require Import RdMethodsGen.\nImport ListNotations.", 1)),
+        ("RdAddGen.v", t2.replace(" gen.RdMethodsGen", "", 1).replace(
+            "Open Scope Z_scope.", "From P Require Import RdMethodsGen.\nOpen Scope Z_scope.", 1)),
+        ("RdAddGenThm.v", thm2.replace("gen.RdMethodsGen rd.RdGenThm rd.RdAddGenBase gen.RdAddGen.",
+                                       "rd.RdAddGenBase.\nFrom P Require Import RdMethodsGen RdGenThm RdAddGen.", 1)),
+        (cid + "gen.v", head + "\nFrom V Require Import rd.RdGenBase rd.RdAddGenBase.\n"
+                               "From P Require Import RdMethodsGen RdGenThm RdAddGen RdAddGenThm.\n" + tail),
+    ]
+    h = hashlib.sha256()
+    for name, txt in files:
+        h.update(name.encode() + b"\0" + txt.encode() + b"\0")
+    for sub in ("base", "rd"):
+        for f in sorted(os.listdir(os.path.join(C.COQ, sub))):
+            if f.endswith(".v"):
+                h.update(f.encode() + open(os.path.join(C.COQ, sub, f), "rb").read())
+    h.update(open(os.path.join(C.COQ, "gen", "RdTables.v"), "rb").read())
+    root = os.path.join(C.BUILD, "rd_gen_cache")
+    os.makedirs(root, exist_ok=True)
+    res_path = os.path.join(root, h.hexdigest()[:24] + ".json")
+    import json as _json
+    if os.path.exists(res_path):
+        try:
+            r = _json.load(open(res_path))
+            r["errors"], r["cached"] = terrs, True
+            return r
+        except Exception:
+            pass
+    d = os.path.join(root, "work_%d" % os.getpid())
+    shutil.rmtree(d, ignore_errors=True)
+    os.makedirs(os.path.join(d, "P"))
+    try:
+        log, rc = "", 0
+        for name, txt in files:
+            open(os.path.join(d, "P", name), "w").write(txt)
+        for name, _t in files:
+            rc, out = C.sh(["timeout", "900", "coqc", "-R", C.COQ, "V", "-R", os.path.join(d, "P"), "P",
+                            os.path.join(d, "P", name)], cwd=d)
+            log += out
+            if rc != 0:
+                break
+        n = len(re.findall(r"(?m)^(Closed under the global context|Axioms:)", log))
+        r = {"names": names, "discharged": min(n, len(names)), "ok": rc == 0 and n == len(names),
+             "log": log[-4000:], "cached": False}
+        # a failure caused by a stale shared .vo (another check rebuilding coq/rd) must not be cached as a verdict
+        if "inconsistent assumptions" not in log and "Cannot find a physical path" not in log \
+                and "Unable to locate library" not in log:
+            tmp = res_path + ".%d" % os.getpid()
+            open(tmp, "w").write(_json.dumps(r))
+            os.replace(tmp, res_path)
+        r["errors"] = terrs
+        return r
+    finally:
+        shutil.rmtree(d, ignore_errors=True)
+
+
+def merge_private(cid, props, priv):
+    """fold the private re-check of the <cid>_gen_* obligations into the compile_props() result"""
+    gen_names = [n for n in props["theorems"] if n.startswith(cid + "_gen_")]
+    base_names = [n for n in props["theorems"] if not n.startswith(cid + "_gen_")]
+    if props["discharged"] >= len(base_names) and priv["names"] == gen_names:
+        props["discharged"] = len(base_names) + priv["discharged"]
+        props["ok"] = bool(priv.get("ok"))
+        props["log"] = (props["log"][-1500:] + "\n--- private re-check of the %s_gen_* obligations (%s) ---\n" % (
+            cid, "cached" if priv.get("cached") else "compiled") + priv["log"][-2500:])
+    elif priv["names"] != gen_names:
+        props["ok"] = False
+        props["log"] += "\nprivate re-check: theorem names differ: %r vs %r" % (priv["names"], gen_names)
+    return props
